@@ -1208,7 +1208,7 @@ impl<'a> Gen<'a> {
             let outer: Vec<VarInfo> = self.scopes[..self.scopes.len() - 1]
                 .iter()
                 .flatten()
-                .filter(|v| !v.reserved && !inner.contains(&v.name))
+                .filter(|v| !v.reserved && !inner.contains(&v.name) && (self.cfg.sw.shadow_param_mut || !v.param))
                 .cloned()
                 .collect();
             if !outer.is_empty() {
